@@ -227,6 +227,12 @@ def finish(prop, tier, level, coverage, violations, t0, assumptions=(), max_repo
             new.setdefault(v.signature, v)
     for kid, (e, n, sig) in sorted(matched.items()):
         print('KNOWN-FINDING: property=%s %s [%s, %d case(s) this run, e.g. %s]' % (prop, e['what_fails'], kid, n, sig[:160]))
+    try:
+        os.makedirs(os.path.join(BUILD, 'tmp'), exist_ok=True)
+        with open(os.path.join(BUILD, 'tmp', prop + '.violations.json'), 'w') as f:
+            json.dump([{'signature': v.signature, 'detail': v.detail} for v in new.values()], f, indent=1, default=str)
+    except Exception:
+        pass
     rdir = os.path.join(ROOT, 'replay', prop)
     nrep = 0
     for sig, v in new.items():
